@@ -98,7 +98,8 @@ RANGES = {INT: [("0", "50"), ("1", "12"), ("-5", "100")], HEX: [("0x0", "0x40"),
 
 
 class Gen:
-    def __init__(self, r, n, feats):
+    def __init__(self, r, n, feats, types=None):
+        self.types = types or TYPES
         self.r = r
         self.n = n
         self.feats = feats
@@ -115,7 +116,7 @@ class Gen:
     def config(self, inchoice=False, forced_type=None, extra_dep=None, menuconfig=False):
         r = self.r
         name = self.newname()
-        t = BOOL if (inchoice or menuconfig) else (forced_type or r.choice(TYPES))
+        t = BOOL if (inchoice or menuconfig) else (forced_type or r.choice(self.types))
         lower = list(self.defined)
         e = {"k": "config", "name": name, "type": t, "prompt": None, "prompt_cond": None, "depends": [], "defaults": [],
              "ranges": [], "selects": [], "implies": [], "sets": [], "help": False, "menuconfig": menuconfig, "warning": None}
@@ -244,14 +245,14 @@ def walk(items):
             yield from walk(it["items"])
 
 
-def gen_program(r, n=None, feats=None, lo=3, hi=14):
+def gen_program(r, n=None, feats=None, lo=3, hi=14, types=None, p_rev=1.0):
     """Returns a structured program dict."""
     if n is None:
         n = r.randint(lo, hi)
     if feats is None:
         # swarm style: each feature is on with probability 3/4
         feats = [f for f in ALL_FEATS if r.random() < 0.75]
-    g = Gen(r, n, feats)
+    g = Gen(r, n, feats, types)
     items = g.block(n, 0)
     prog = {"mainmenu": "T", "items": items, "feats": feats}
     configs = [it for it in walk(items) if it["k"] == "config"]
@@ -279,12 +280,15 @@ def gen_program(r, n=None, feats=None, lo=3, hi=14):
         if "imply" in feats and lb and r.random() < 0.15:
             c["implies"].append([r.choice(lb)["name"], cond(r, lower) if r.random() < 0.4 else None])
         for kind, p in (("set", 0.18), ("setdefault", 0.15)):
-            if kind in feats and ln and r.random() < p:
+            if kind in feats and ln and r.random() < p * p_rev:
                 tgt = r.choice(ln)
+                strs = [d for d in ln if d["type"] == STRING]
+                if strs and any(t == STRING for _, t in lower) and r.random() < 0.5:
+                    tgt = r.choice(strs)  # make option-valued `set` (string only) reasonably frequent
                 # option-valued `set` is only evaluated by value for string targets (numeric
                 # targets take the *name* as a literal; pure-evaluator territory, C01/C09)
                 lows = [n for n, t in lower if t == tgt["type"] and t == STRING]
-                val = r.choice(lows) if (lows and r.random() < 0.25) else lit(tgt["type"], r)
+                val = r.choice(lows) if (lows and r.random() < 0.5) else lit(tgt["type"], r)
                 c["sets"].append([kind, tgt["name"], val, cond(r, lower) if r.random() < 0.4 else None])
     # second definition site of an option (adds a default / prompt-less redefinition)
     if "redef" in feats and configs and r.random() < 0.25:
@@ -571,3 +575,66 @@ def v2_ok(prog):
 
 def pick_parser(r, prog, p2=0.1):
     return 2 if (r.random() < p2 and v2_ok(prog)) else 1
+
+
+def dep_edges(prog):
+    """Static approximation of 'B may depend on A': list of (A, B, enabler) with
+    multiplicity (value positions - option-valued set/default/range - are rarer
+    in programs and therefore oversampled).  `enabler` is a bool option whose y
+    makes the link active (the source of a select/imply/set), or None."""
+    tab = sym_table(prog)
+    edges = []
+
+    def names_in(x):
+        return [m for m in _IDENT.findall(x or "") if m in tab]
+
+    def add(a, b, en=None, mult=1):
+        if a != b and a in tab and b in tab:
+            edges.extend([(a, b, en)] * mult)
+
+    def rec(items, inherited):
+        for it in items:
+            k = it["k"]
+            if k == "config":
+                b = it["name"]
+                srcs = list(inherited)
+                for d in it["depends"]:
+                    srcs += names_in(d)
+                srcs += names_in(it["prompt_cond"])
+                for v, c in it["defaults"]:
+                    srcs += names_in(c)
+                    for a in names_in(v):
+                        add(a, b, None, 3)
+                for lo, hi, c in it["ranges"]:
+                    srcs += names_in(c)
+                    for a in names_in(lo) + names_in(hi):
+                        add(a, b, None, 3)
+                for a in srcs:
+                    add(a, b)
+                for t, c in it["selects"] + it["implies"]:
+                    add(b, t)
+                    for a in names_in(c) + srcs:
+                        add(a, t, b)
+                for kind, t, v, c in it["sets"]:
+                    add(b, t)
+                    for a in names_in(c) + srcs:
+                        add(a, t, b)
+                    for a in names_in(v):
+                        add(a, t, b, 6)
+            elif k == "choice":
+                inh = list(inherited) + [a for d in it["depends"] for a in names_in(d)] + names_in(it["prompt_cond"])
+                for m, c in it["defaults"]:
+                    inh += names_in(c)
+                ms = [c["name"] for c in walk(it["items"]) if c["k"] == "config"]
+                for a in ms:
+                    for b in ms:
+                        add(a, b)
+                rec(it["items"], inh)
+            elif k == "menu":
+                inh = list(inherited) + [a for d in it["depends"] for a in names_in(d)] + names_in(it["visible_if"])
+                rec(it["items"], inh)
+            elif k == "if":
+                rec(it["items"], list(inherited) + names_in(it["cond"]))
+
+    rec(prog["items"], [])
+    return edges
